@@ -229,7 +229,7 @@ enum Outcome {
     Returned,
     /// a stage panicked (caught): (stage, message)
     Panic(String, String),
-    /// no answer within the watchdog time
+    /// no answer although the worker has used the watchdog's CPU time on the job (or slept for the wall cap)
     Hang,
     /// the worker died (signal / abort): exit description
     Abort(String),
@@ -282,6 +282,16 @@ impl Worker {
     }
 }
 
+/// CPU time (user + system, all threads) of a process in clock ticks of 10 ms; 0 when it is gone
+fn cpu_ticks(pid: u32) -> u64 {
+    let Ok(t) = std::fs::read_to_string(format!("/proc/{}/stat", pid)) else { return 0 };
+    let Some(i) = t.rfind(')') else { return 0 };
+    let f: Vec<&str> = t[i + 1..].split_whitespace().collect();
+    // after the command name: state(0) ppid pgrp session tty tpgid flags minflt cminflt majflt cmajflt utime(11) stime(12)
+    let g = |k: usize| f.get(k).and_then(|x| x.parse::<u64>().ok()).unwrap_or(0);
+    g(11) + g(12)
+}
+
 struct Pool {
     w: Option<Worker>,
     pub timeout: Duration,
@@ -304,7 +314,33 @@ impl Pool {
         let out = if sent.is_err() {
             Outcome::Abort("worker pipe closed".into())
         } else {
-            match w.rx.recv_timeout(self.timeout) {
+            // The watchdog measures the CPU time the worker has spent on this job (utime + stime of
+            // /proc/<pid>/stat), not wall time: on a loaded machine a worker that is merely waiting for a
+            // core is not a hang.  A wall-clock cap catches a worker that sleeps for ever.
+            let pid = w.child.id();
+            let cpu0 = cpu_ticks(pid);
+            let cpu_limit = (self.timeout.as_millis() as u64) / 10; // ticks of 10 ms
+            let wall_cap = Duration::from_secs(90).max(self.timeout * 20);
+            let mut got: Result<String, bool> = Err(false); // Err(true) = worker gone
+            loop {
+                match w.rx.recv_timeout(Duration::from_millis(25)) {
+                    Ok(l) => {
+                        got = Ok(l);
+                        break;
+                    }
+                    Err(mpsc::RecvTimeoutError::Timeout) => {
+                        let used = cpu_ticks(pid).saturating_sub(cpu0);
+                        if used >= cpu_limit || t0.elapsed() >= wall_cap {
+                            break;
+                        }
+                    }
+                    Err(mpsc::RecvTimeoutError::Disconnected) => {
+                        got = Err(true);
+                        break;
+                    }
+                }
+            }
+            match got {
                 Ok(l) => {
                     let mut o = Outcome::Returned;
                     for part in l.split(' ').skip(1) {
@@ -317,8 +353,8 @@ impl Pool {
                     }
                     o
                 }
-                Err(mpsc::RecvTimeoutError::Timeout) => Outcome::Hang,
-                Err(mpsc::RecvTimeoutError::Disconnected) => {
+                Err(false) => Outcome::Hang,
+                Err(true) => {
                     let st = w.child.wait().map(|s| format!("{}", s)).unwrap_or("?".into());
                     Outcome::Abort(st)
                 }
